@@ -383,8 +383,10 @@ func (r *Reconciler) Reconcile(ctx context.Context, req reconcile.Request) (reco
 		}
 
 		// Set oldest revision to the lowest numbered revision and
-		// record its index.
-		if revisionNum < oldestRevision {
+		// record its index. The current revision is never a candidate for
+		// garbage collection: after a rollback to an earlier image it is
+		// still the lowest numbered revision at this point.
+		if revisionNum < oldestRevision && rev.GetName() != p.GetCurrentRevision() {
 			oldestRevision = revisionNum
 			oldestRevisionIndex = index
 		}
@@ -420,7 +422,8 @@ func (r *Reconciler) Reconcile(ctx context.Context, req reconcile.Request) (reco
 	// Check to see if there are revisions eligible for garbage collection.
 	if p.GetRevisionHistoryLimit() != nil &&
 		*p.GetRevisionHistoryLimit() != 0 &&
-		len(revisions) > (int(*p.GetRevisionHistoryLimit())+1) {
+		len(revisions) > (int(*p.GetRevisionHistoryLimit())+1) &&
+		oldestRevisionIndex >= 0 {
 		gcRev := revisions[oldestRevisionIndex]
 		// Find the oldest revision and delete it.
 		if err := r.client.Delete(ctx, gcRev); err != nil {
